@@ -315,6 +315,8 @@ class Model:
 
         if isinstance(obj, (Convex, PiecewiseConvex)) and obj.sign == -1:
             raise ValueError('Nonconvex objective.')
+        if ambset.model is not self:
+            raise ValueError('Models mismatch.')
 
         self.obj = obj
         self.obj_ambiguity = ambset
@@ -350,6 +352,8 @@ class Model:
 
         if isinstance(obj, (Convex, PiecewiseConvex)) and obj.sign == 1:
             raise ValueError('Nonconvex objective.')
+        if ambset.model is not self:
+            raise ValueError('Models mismatch.')
 
         self.obj = obj
         self.obj_ambiguity = ambset
